@@ -127,7 +127,7 @@ fn wire_case(rng: &mut Rng, ctx: &mut Ctx, idx: u64) {
         ..Default::default()
     };
     let id = format!("m{}", idx);
-    let spec = CallSpec { id: id.clone(), shape, req_msgs: vec![Msg::default()], req_meta: req_meta.clone(), req_pend: vec![], req_gaps_ms: vec![], timeout: None };
+    let spec = CallSpec { id: id.clone(), shape, req_msgs: vec![Msg::default()], req_meta: req_meta.clone(), req_pend: vec![], req_gaps_ms: vec![], timeout: None, pingpong: None };
     let pad = rng.bool();
     let case_json = json!({"shape": format!("{:?}", shape), "request_meta": meta_json(&req_meta), "initial_md": meta_json(&init_md), "status": if fails { Some(st.json()) } else { None }, "fail_up_front": up_front, "peer_pads_bin": pad});
     ctx.begin(if pad { "padding-peer" } else { "plain-peer" }, case_json.clone());
@@ -509,7 +509,7 @@ fn h2_case(rng: &mut Rng, ctx: &mut Ctx, idx: u64) {
             ..Default::default()
         };
         let id = format!("h{}x{}", idx, c);
-        specs.push(CallSpec { id: id.clone(), shape, req_msgs: vec![Msg::default()], req_meta: req_meta.clone(), req_pend: vec![], req_gaps_ms: vec![], timeout: None });
+        specs.push(CallSpec { id: id.clone(), shape, req_msgs: vec![Msg::default()], req_meta: req_meta.clone(), req_pend: vec![], req_gaps_ms: vec![], timeout: None, pingpong: None });
         calls.push(PlannedCall { conn: 0, start_ms: rng.below(5), shape, script: script.clone(), id });
         metas.push((req_meta, init_md, st.meta.clone()));
     }
